@@ -12,6 +12,8 @@ PB = TRef('ParseBuffer')
 
 def build(m):
     m.classes['FileWrapper'] = {'lines': TList(STR), 'start_line': INT, '_index': INT, '_anchor': INT}
+    # data-structure invariant of the reader (LINES_OK, newline part): every line ends with '\n'
+    m.elem_inv[('FileWrapper', 'lines')] = "x.endswith('\\n')"
     m.classes['ParseBuffer'] = {'items': TList(TRIPLE), 'loose': BOOL}
     m.classes['BlockCls'] = {}
     m.classes['ReadResult'] = {}
@@ -114,8 +116,8 @@ def build(m):
                        # consumed by that block's read()
                        'forall(lambda j: result.items[j][2] == start_line + first_line(result.items[j][1]), 0, len(result.items))',
                    ],
-                   modifies=['F:FileWrapper._index', 'F:FileWrapper.lines', 'F:FileWrapper.start_line',
-                             'F:FileWrapper._anchor', 'F:ParseBuffer.items', 'F:ParseBuffer.loose',
+                   modifies=['N:FileWrapper._index', 'N:FileWrapper.lines', 'N:FileWrapper.start_line',
+                             'N:FileWrapper._anchor', 'N:ParseBuffer.items', 'N:ParseBuffer.loose',
                              'G:SCRATCH', 'G:FOOTNOTES'],
                    allow_exc=['CustomTokenError'],
                    body_types={'line': TOpt(STR)},
